@@ -80,16 +80,16 @@ type Conn struct {
 	TxFrames int
 	TxSizes  []int // payload length of every 'D' frame sent, in order
 
-	ttl              []int // outstanding frames: remaining polls
-	Polls            int
-	LastPollReply    int  // -1 before the first poll
-	DSinceLastPoll   int  // 'D' frames received after the most recent poll
-	DNeverPolled     int  // 'D' frames that were followed by another 'D' without a poll in between
-	HostDisc         bool // application sent 'd'
+	ttl               []int // outstanding frames: remaining polls
+	Polls             int
+	LastPollReply     int  // -1 before the first poll
+	DSinceLastPoll    int  // 'D' frames received after the most recent poll
+	DNeverPolled      int  // 'D' frames that were followed by another 'D' without a poll in between
+	HostDisc          bool // application sent 'd'
 	HostDiscUnflushed bool // ... while the most recent poll reply was not 0 or data came after it
-	TNCDisc          bool // the simulator sent 'd'
-	LateFrames       int  // D/Y/d frames received after the simulator's own 'd'
-	YReversed        int  // 'Y' polls carrying the calls in connection-initiator order (inbound only)
+	TNCDisc           bool // the simulator sent 'd'
+	LateFrames        int  // D/Y/d frames received after the simulator's own 'd'
+	YReversed         int  // 'Y' polls carrying the calls in connection-initiator order (inbound only)
 }
 
 type Sim struct {
